@@ -133,7 +133,7 @@ def run(chk):
     threshold_count(chk, src, "threshold-count")
     chk.rule("sorted-before-prefix", "values of a full (blocked, unsorted) svd_qn never flow into _update_ms / truncate_tensors / a prefix slice", 4)
     chk.rule("svd-sort", "economic svd_qn applies one descending argsort to u, v, s and both label lists", 5)
-    chk.rule("co-truncate", "u, s, v and both label lists are cut by one bound / selected by one index", 4)
+    chk.rule("co-truncate", "u, s, v and both label lists are cut by one bound / selected by one index (abstract runs of _update_ms and truncate_tensors; select_basis)", 8)
     chk.rule("trunc-bound", "compute_m_trunc: kept count = min over the bounds its criterion names; unknown criteria rejected (abstract run)", 4)
     chk.rule("bond-index", "explicit-list path and config path select the same bond for (site, direction)", 6)
     chk.rule("select-sorts", "select_basis ranks candidates by descending singular value and takes at most Mmax", 3)
@@ -171,35 +171,23 @@ def run(chk):
     for nm in ("u", "v", "su", "new_qnl", "new_qnr"):
         chk.ob("svd-sort", f"{nm} permuted by {oname}", nm in permuted, sq.where, permuted.get(nm, "not permuted"), f"{nm}[.. {oname}]", line=b.lineno,
                detail=f"svd_qn sorts the singular values but leaves {nm} in block order: vectors/labels no longer belong to their singular values")
-    # ---- co-truncate
-    um = src.func(MP, "MatrixProduct._update_ms")
-    bnd = Q.prefix_slices(um.node, {"u", "vt", "sigma", "qnlset", "qnrset"})
-    allb = {x for v in bnd.values() for x in v}
-    chk.ob("co-truncate", "_update_ms", len(allb) == 1 and set(bnd) == {"u", "vt", "sigma", "qnlset", "qnrset"}, um.where, {k: sorted(v) for k, v in bnd.items()},
-           "u, vt, sigma, qnlset, qnrset all cut by m_trunc", line=um.node.lineno,
-           detail="_update_ms truncates factors and labels by different bounds (or leaves one untruncated): tensors and labels disagree in length or content")
-    # unsliced reads of labels
-    raw = []
-    for n in ast.walk(um.node):
-        if isinstance(n, ast.Name) and n.id in ("qnlset", "qnrset") and isinstance(n.ctx, ast.Load):
-            raw.append(n)
-    sliced_ids = {id(n.value) for n in ast.walk(um.node) if isinstance(n, ast.Subscript) and isinstance(n.value, ast.Name)}
-    tests = {id(x) for n in ast.walk(um.node) if isinstance(n, ast.Compare) for x in ast.walk(n) if isinstance(x, ast.Name)}
-    unsl = [n for n in raw if id(n) not in sliced_ids and id(n) not in tests]
-    chk.ob("co-truncate", "_update_ms: labels only used truncated", not unsl, um.where, [n.lineno for n in unsl], "every use of qnlset/qnrset is [:m_trunc]")
+    # ---- co-truncate: abstract runs
+    from .chain_rules import update_ms_rule
+    update_ms_rule(chk, src, "co-truncate")
+    from .. import ntensor as NTm
+    from ..ntensor import NT, Leg
+    from ..syminterp import SymInterp
     tt = src.func(TREE, "truncate_tensors")
-    ps = tt.params()
-    bnd = Q.prefix_slices(tt.node, set(ps[:-1]))
-    allb = {x for v in bnd.values() for x in v}
-    chk.ob("co-truncate", "truncate_tensors", len(allb) == 1 and set(bnd) == set(ps[:-1]) and allb == {ps[-1]}, tt.where, {k: sorted(v) for k, v in bnd.items()},
-           f"all of {ps[:-1]} cut by {ps[-1]}", line=tt.node.lineno)
-    rt = [unparse(r.value).replace(" ", "") for r in ast.walk(tt.node) if isinstance(r, ast.Return)]
-    chk.ob("co-truncate", "truncate_tensors returns in parameter order", rt == [",".join(ps[:-1])] or rt == ["(" + ",".join(ps[:-1]) + ")"], tt.where, rt, ",".join(ps[:-1]))
-    cn = src.func(TREE, "TTNS.compress_node")
-    call = [c for c in ast.walk(cn.node) if isinstance(c, ast.Call) and unparse(c.func) == "truncate_tensors"]
-    asg = [s for s in ast.walk(cn.node) if isinstance(s, ast.Assign) and s.value in call]
-    ok = len(call) == 1 and len(asg) == 1 and [unparse(a) for a in call[0].args[:5]] == [unparse(t) for t in asg[0].targets[0].elts]
-    chk.ob("co-truncate", "compress_node: truncate_tensors call/unpack order", ok, cn.where, unparse(asg[0]) if asg else "", "u, s, v, qnl, qnr = truncate_tensors(u, s, v, qnl, qnr, m)")
+    u = NT("u", [Leg(("rows", "u"), 7), Leg(("new",), 13)])
+    v = NT("v", [Leg(("rows", "v"), 11), Leg(("new",), 13)])
+    sv = NT("s", [Leg(("new",), 13)])
+    ql, qr = [f"l{k}" for k in range(13)], [f"r{k}" for k in range(13)]
+    res = SymInterp(src, None, {"np": NTm.np_namespace()}).call_function(tt, [u, sv, v, ql, qr, 5])
+    ok = isinstance(res, tuple) and len(res) == 5 and isinstance(res[0], NT) and res[0].keys() == [("rows", "u"), ("new",)] and res[0].legs[1].cut == 5 \
+        and isinstance(res[1], NT) and res[1].legs[0].cut == 5 and isinstance(res[2], NT) and res[2].keys() == [("rows", "v"), ("new",)] and res[2].legs[1].cut == 5 \
+        and list(res[3]) == ql[:5] and list(res[4]) == qr[:5]
+    chk.ob("co-truncate", "truncate_tensors", ok, tt.where, repr(res)[:200], "(u[:, :m], s[:m], v[:, :m], qnl[:m], qnr[:m])", line=tt.node.lineno,
+           detail="factors, singular values and both label lists must be cut by the one kept count and returned in the order they were given")
     sb = src.func(LIB, "select_basis")
     idx = set()
     for n in ast.walk(sb.node):
